@@ -142,6 +142,20 @@ def run(payload):
         val = float(fw.interpolate(pt_, bc={"value": 1.0}))
         if abs(val - 1.0) > 1e-5:
             fails.append({"id": kind, "grid": repr(gw), "point": pt_.tolist(), "value": val, "imposed": 1.0})
+    # interpolation with an anti-periodic condition approaches the (sign-flipped) seam value
+    from pde import UnitGrid as _UG
+    fa = ScalarField(_UG([4], periodic=True), [1.0, 2.0, 3.0, 4.0])
+    cases += 1
+    got_ = [float(fa.interpolate([x_], bc="anti-periodic")) for x_ in (0.375, 0.25, 0.125)]
+    want_ = [1 + (x_ - 0.5) * 5 for x_ in (0.375, 0.25, 0.125)]  # straight line from the ghost value -4 at -0.5 to the cell value 1 at 0.5
+    if not np.allclose(got_, want_, atol=1e-9):
+        fails.append({"id": "anti_periodic_condition_ignored_by_interpolation", "grid": "UnitGrid([4], periodic=True)", "data": [1, 2, 3, 4], "points": [0.375, 0.25, 0.125], "got": got_, "want": want_})
+    # integer-valued fields: the interpolant of an affine field is exact (not truncated to integers)
+    fi = ScalarField(_UG([4]), np.array([0, 1, 2, 3]), dtype=int)
+    cases += 1
+    got_ = [float(fi.interpolate([x_])) for x_ in (1.0, 1.25, 2.9)]
+    if not np.allclose(got_, [0.5, 0.75, 2.4], atol=1e-9):
+        fails.append({"id": "interpolant_of_an_integer_field_truncated", "data": [0, 1, 2, 3], "points": [1.0, 1.25, 2.9], "got": got_, "want": [0.5, 0.75, 2.4]})
     seen, out = set(), []
     for f_ in fails:  # one example per kind first
         if f_["id"] not in seen:
